@@ -164,6 +164,13 @@ func (w *c17World) record(h string, id uint64) interface{} {
 	return nil
 }
 
+func (w *c17World) count(h string) int64 {
+	if h == "exit" {
+		return w.ex.ConnectionCount()
+	}
+	return w.fw.ConnectionCount()
+}
+
 func (w *c17World) serialOf(rec interface{}) int {
 	for i, t := range w.tuns {
 		if t.rec == rec {
@@ -246,6 +253,8 @@ func init() {
 				w.req++
 				req := w.req
 				tag := fmt.Sprintf("%d:%d", peer, id)
+				pre := w.record(h, id)
+				countBefore := w.count(h)
 				// a synchronous error (connection limit) is reported to the peer as OPEN_ERR as well
 				if h == "exit" {
 					_ = w.ex.HandleStreamOpen(context.Background(), id, req, c17ID(peer), "127.0.0.1", uint16(w.sinks["exit"].ln.Addr().(*net.TCPAddr).Port), pub)
@@ -255,6 +264,15 @@ func init() {
 				c17Wait("open answer", func() bool { return w.wr.has("ack:"+tag) || w.wr.has("err:"+tag) })
 				if !w.wr.has("ack:" + tag) {
 					return w.out(nil)
+				}
+				// a record already stored under the id is displaced: the handler closes its connection
+				// (observed on the real counter: a handler that displaces counts the slot once)
+				var extra []string
+				if pre != nil && w.count(h) == countBefore {
+					if s := w.serialOf(pre); s >= 0 && w.open[s] {
+						delete(w.open, s)
+						extra = append(extra, fmt.Sprintf("dstclosed:%d", s))
+					}
 				}
 				w.wr.mu.Lock()
 				theirs := w.wr.ack[tag]
@@ -274,7 +292,7 @@ func init() {
 				w.tuns = append(w.tuns, &c17Tunnel{h: h, id: id, peer: peer, key: key, sinkIx: nth, rec: w.record(h, id)})
 				w.open[serial] = true
 				w.settle()
-				return w.out(nil)
+				return w.out(extra)
 			case "openfail":
 				// an open that must be refused: kind = zero | loworder (unusable ephemeral key), notallowed,
 				// unresolvable, refused (exit); zero | loworder | nokey | refused (fwd)
@@ -372,8 +390,8 @@ func init() {
 				}
 				t := w.tuns[serial]
 				delete(w.open, serial)
-				// the loop's deferred closeConnection(ac.StreamID) closes whatever record is stored under that id
-				extra := w.closing(t.h, t.id)
+				pre := w.record(t.h, t.id)
+				loops := c17ReadLoops()
 				s := w.sinks[t.h]
 				s.mu.Lock()
 				s.self[t.sinkIx] = true
@@ -382,6 +400,15 @@ func init() {
 				c.Close()
 				tag := fmt.Sprintf("fin:%d:%d", t.peer, t.id)
 				c17Wait("FIN from the read loop", func() bool { return w.wr.has(tag) })
+				// the loop's deferred teardown has run once the loop itself is gone
+				c17Wait("the read loop to end", func() bool { return c17ReadLoops() < loops })
+				var extra []string
+				if pre != nil && w.record(t.h, t.id) != pre { // the teardown removed a record: whose?
+					if ps := w.serialOf(pre); ps >= 0 && w.open[ps] {
+						delete(w.open, ps)
+						extra = append(extra, fmt.Sprintf("dstclosed:%d", ps))
+					}
+				}
 				w.settle()
 				return w.out(extra)
 			}
